@@ -744,6 +744,7 @@ func (fe *FactEngine) step(ff *fnFacts, ins ssa.Instruction, st DNF, depth int) 
 				// the call is re-evaluated on every iteration: facts about its previous result are stale
 				a.killIf(func(_ string, t *Term) bool { return t.Contains(self) })
 			}
+			fe.noteTrackedCall(a, ins, c)
 		}
 		return st
 	case *ssa.Defer, *ssa.Go:
@@ -753,6 +754,13 @@ func (fe *FactEngine) step(ff *fnFacts, ins ssa.Instruction, st DNF, depth int) 
 			// trustworthy afterwards either way
 			for _, a := range st {
 				fe.killCall(a, ff.fn, ins, c)
+			}
+		}
+		for _, a := range st {
+			fe.noteTrackedCall(a, ins, c)
+			// a goroutine / deferred closure that calls a tracked function on every one of its paths
+			for _, tc := range fe.mustTrackedCalls(ins) {
+				fe.noteTrackedCall(a, tc, callInstrCommon(tc))
 			}
 		}
 		return st
@@ -1310,4 +1318,135 @@ func (a *Alt) Has(kind string, sign bool, match func(*Term) bool) bool {
 func (a *Alt) HasKey(kind string, t *Term, sign bool) bool {
 	v, ok := a.facts[kind+":"+t.String()]
 	return ok && v == sign
+}
+
+// ---- typestate atoms: "this has been called on that" -------------------------------------------
+//
+// For a small set of tracked callees (stop / cancel / store operations whose *having happened* a
+// property depends on) executing the call adds the atom  c:<name>(<receiver term>)  to the path.
+// `go` and `defer` of a call count (it will run), as do goroutines / deferred closures that perform a
+// tracked call on every one of their own paths. At joins the atom survives only if every incoming
+// path has it (subsumption keeps the weaker alternative).
+
+// trackedCallee: name and subject term of a tracked call, ok=false if the call is not tracked.
+func (fe *FactEngine) trackedCallee(a *Alt, c *ssa.CallCommon) (string, *Term, bool) {
+	if c == nil {
+		return "", nil, false
+	}
+	if o := calleeObj(c); o != nil {
+		switch o.Name() {
+		case "Stop":
+			if recvNamed(o) == "Operation" {
+				var recv ssa.Value
+				if c.IsInvoke() {
+					recv = c.Value
+				} else if len(c.Args) > 0 {
+					recv = c.Args[0]
+				}
+				if recv != nil {
+					return "Stop", fe.resolveWith(a, recv), true
+				}
+			}
+		case "AddPeer":
+			var recv ssa.Value
+			if c.IsInvoke() {
+				recv = c.Value
+			} else if len(c.Args) > 0 {
+				recv = c.Args[0]
+			}
+			if recv != nil {
+				return "AddPeer", fe.resolveWith(a, recv), true
+			}
+		}
+		return "", nil, false
+	}
+	// cancel functions: a call through result #1 of context.WithCancel / WithTimeout / WithDeadline
+	if c.StaticCallee() == nil && !c.IsInvoke() {
+		ct := fe.resolveWith(a, c.Value)
+		if ct.Op == OpExtract && ct.Name == "1" && ct.Args[0].Op == OpCall && strings.Contains(ct.Args[0].Name, "context.With") {
+			return "cancel", ct.Args[0], true
+		}
+	}
+	return "", nil, false
+}
+
+func recvNamed(o *types.Func) string {
+	sig, _ := o.Type().(*types.Signature)
+	if sig == nil || sig.Recv() == nil {
+		return ""
+	}
+	t := sig.Recv().Type()
+	if pt, ok := t.(*types.Pointer); ok {
+		t = pt.Elem()
+	}
+	if n, ok := types.Unalias(t).(*types.Named); ok {
+		return n.Obj().Name()
+	}
+	return ""
+}
+
+func (fe *FactEngine) resolveWith(a *Alt, v ssa.Value) *Term {
+	if a == nil {
+		return fe.ts.Of(v)
+	}
+	return fe.resolve(a, v)
+}
+
+func (fe *FactEngine) noteTrackedCall(a *Alt, ins ssa.Instruction, c *ssa.CallCommon) {
+	name, subj, ok := fe.trackedCallee(a, c)
+	if !ok {
+		return
+	}
+	a.addAtoms([]atom{{"c:" + name + "(" + subj.String() + ")", subj, true}})
+}
+
+var mustTrackedCache = map[ssa.Instruction][]ssa.Instruction{}
+
+// mustTrackedCalls: for a go/defer instruction with a single module callee, the tracked calls inside
+// that callee which lie on every path from its entry to its return.
+func (fe *FactEngine) mustTrackedCalls(ins ssa.Instruction) []ssa.Instruction {
+	if r, ok := mustTrackedCache[ins]; ok {
+		return r
+	}
+	var out []ssa.Instruction
+	es := fe.cg.SiteOut[ins]
+	if len(es) == 1 && !es[0].Callback && len(es[0].Callee.Blocks) > 0 {
+		g := es[0].Callee
+		first := g.Blocks[0].Instrs[0]
+		for _, b := range g.Blocks {
+			for _, i := range b.Instrs {
+				c := callInstrCommon(i)
+				if c == nil {
+					continue
+				}
+				if _, isGo := i.(*ssa.Go); isGo {
+					continue
+				}
+				if _, _, ok := fe.trackedCallee(nil, c); !ok {
+					continue
+				}
+				target := i
+				if first == target {
+					out = append(out, i)
+					continue
+				}
+				if ok, _ := MustPass(first, func(x ssa.Instruction) bool { return x == target }); ok {
+					out = append(out, i)
+				}
+			}
+		}
+	}
+	mustTrackedCache[ins] = out
+	return out
+}
+
+// Called reports whether alt records a tracked call `name` on a subject satisfying match.
+func (a *Alt) Called(name string, match func(*Term) bool) bool {
+	pre := "c:" + name + "("
+	for k, t := range a.terms {
+		if strings.HasPrefix(k, pre) && a.facts[k] && match(t) {
+			return true
+		}
+	}
+	return false
 }
